@@ -1,6 +1,7 @@
 package sim
 
 import (
+	"os"
 	"crypto/sha256"
 	"encoding/hex"
 	"fmt"
@@ -75,6 +76,7 @@ func Execute(t *testing.T, sc *Scenario, replay []Decision) *RunResult {
 			h := NewHistory()
 			h.SetStart(time.Now())
 			s := NewSim(sc.Seed, sc.Sched, h)
+			s.Free = os.Getenv("VERIF_UNCONTROLLED") != ""
 			if replay != nil {
 				s.replay = replay
 				if len(replay) == 0 {
@@ -126,12 +128,12 @@ func genericChecks(r *RunResult) []Violation {
 	}
 	for _, c := range r.W.Cmds {
 		if c.Panic != "" {
-			out = append(out, Violation{Prop: "C18", Clause: "panic-in-command", Msg: fmt.Sprintf("command %s(%s) by %s panicked: %s", c.Op.Kind, c.Op.Service, c.Actor, trunc(c.Panic, 400)), Sig: "panic:" + c.Op.Kind})
+			out = append(out, Violation{Prop: r.Sc.Prop, Clause: "panic-in-command", Msg: fmt.Sprintf("command %s(%s) by %s panicked: %s", c.Op.Kind, c.Op.Service, c.Actor, trunc(c.Panic, 400)), Sig: "panic:" + c.Op.Kind})
 		}
 	}
 	for _, q := range r.W.Responses {
 		if strings.HasPrefix(q.Err, "PANIC") {
-			out = append(out, Violation{Prop: "C18", Clause: "panic-in-request", Msg: fmt.Sprintf("request %s panicked: %s", q.ReqID, trunc(q.Err, 400)), Sig: "panic:request"})
+			out = append(out, Violation{Prop: r.Sc.Prop, Clause: "panic-in-request", Msg: fmt.Sprintf("request %s panicked: %s", q.ReqID, trunc(q.Err, 400)), Sig: "panic:request"})
 		}
 	}
 	return out
